@@ -26,7 +26,7 @@ static void run_case(const Cfg &c, en::CaseOut &o) {
     pl::Instance I; I.create(c.rate); OPN2_MIDIPlayer *d = I.dev;
     if(opn2_switchEmulator(d, c.core) != 0) { o.fail("C20/harness", "core unavailable"); return; }
     opn2_setRunAtPcmRate(d, c.pcmrate ? 1 : 0); opn2_setNumChips(d, c.chips);
-    opn2_openBankData(d, g_bank.data(), (long)g_bank.size()); opn2_setChipType(d, c.family);
+    pl::must(opn2_openBankData(d, g_bank.data(), (long)g_bank.size()), "opn2_openBankData(generated bank)", d); opn2_setChipType(d, c.family);
     opn2_setVolumeRangeModel(d, OPNMIDI_VolumeModel_Generic);
     std::string name = opn2_chipEmulatorName(d); std::string ctx = " [" + cfg_str(c, name.c_str()) + "]"; char b[300];
     const double FS = 32768.0;
